@@ -174,22 +174,60 @@ def rule_S1(ctx):
             ctx.violation("lbuf_modified", "dirty test",
                           "the return value is not `<what lbuf_saved records> != useq_zero` "
                           "(found %s, saved expression %s)" % (key(e, pm), zrhs), md.loc(r))
-    # lbuf_seq shape: the sequence number of the undo position
+    # lbuf_seq: the sequence number of the undo position -- the log entry below the cursor when
+    # there is one, else the number recorded when the log was cleared; judged per path so that
+    # `?:`, if/else and early returns are all the same
     if prog.has_func("lbuf_seq"):
+        from ..cfg import paths_to
+        from ..util import path_consistent, nullness
         sq = prog.func("lbuf_seq")
+        pq = {p["name"]: "$0" for p in sq.params}
+        n_paths = 0
         for r in sq.cfg.return_nodes():
-            e = r.get("e")
-            pq = {p["name"]: "$0" for p in sq.params}
-            k = key(e, pq)
-            want = "($0->hist_u?$0->hist[($0->hist_u-1)].seq:$0->useq_last)"
-            if k == want:
-                ctx.ok("lbuf_seq", "seq of undo position", loc=sq.loc(r))
-            elif e is not None and e["k"] == "cond":
+            verdicts = set()
+            for items in paths_to(sq.cfg, sq.cfg.entry, r["id"]):
+                if not path_consistent(sq, items):
+                    continue
+                n_paths += 1
+                byid = {x[1]: x[2] for x in items if x[0] == "br"}
+                e = strip_casts(r.get("e"))
+                while e is not None and e["k"] == "cond" and strip_casts(e["c"])["id"] in byid:
+                    e = strip_casts(e["t"] if byid[strip_casts(e["c"])["id"]] else e["f"])
+                has = None
+                for x in items:
+                    if x[0] != "br":
+                        continue
+                    nn = nullness(sq.nodes[x[1]], x[2])
+                    if nn is not None and key(nn[0], pq) == "$0->hist_u":
+                        has = not nn[1]
+                    c_, t_ = sq.nodes[x[1]], x[2]
+                    if c_["k"] == "bin" and c_["op"] in (">", "<=") and key(c_["l"], pq) == "$0->hist_u" \
+                            and cval(c_["r"]) == 0:
+                        has = (c_["op"] == ">") == t_
+                k = key(e, pq) if e is not None else None
+                allowed_ = ("$0->hist[($0->hist_u-1)].seq", "$0->useq_last")
+                if k not in allowed_ and e is not None and e["k"] in ("member", "int"):
+                    verdicts.add(("bad", k))
+                elif has is None:
+                    verdicts.add(("und", k))
+                elif has and k == "$0->hist[($0->hist_u-1)].seq":
+                    verdicts.add(("ok", k))
+                elif (not has) and k == "$0->useq_last":
+                    verdicts.add(("ok", k))
+                else:
+                    verdicts.add(("bad" if e is not None and e["k"] in ("member", "int") else "und", k))
+            if any(v[0] == "bad" for v in verdicts):
                 ctx.violation("lbuf_seq", "seq of undo position",
-                              "expected %s, found %s" % (want, k), sq.loc(r))
-            else:
+                              "expected hist[hist_u-1].seq when the log has an entry below the cursor and "
+                              "useq_last otherwise, found %s" % sorted(v[1] for v in verdicts if v[0] == "bad"),
+                              sq.loc(r))
+            elif any(v[0] == "und" for v in verdicts):
                 ctx.inconclusive("lbuf_seq", "seq of undo position",
-                                 "unrecognised form %s" % k, sq.loc(r))
+                                 "unrecognised form %s" % sorted(str(v[1]) for v in verdicts if v[0] == "und"), sq.loc(r))
+            elif verdicts:
+                ctx.ok("lbuf_seq", "seq of undo position", loc=sq.loc(r))
+        if not n_paths:
+            ctx.broken("lbuf_seq has no returning path")
 
 
 def effect_callees(prog, targets, stop=("ex_command",), edge_ok=None):
